@@ -360,6 +360,11 @@ YR_API void yr_scanner_destroy(YR_SCANNER* scanner)
         (YR_HASH_TABLE_FREE_VALUE_FUNC) yr_object_destroy);
   }
 
+  // The notebook is still alive if the last scan was suspended with
+  // ERROR_BLOCK_NOT_READY and never resumed.
+  if (scanner->matches_notebook != NULL)
+    yr_notebook_destroy(scanner->matches_notebook);
+
 #ifdef YR_PROFILING_ENABLED
   yr_free(scanner->profiling_info);
 #endif
@@ -497,6 +502,16 @@ YR_API int yr_scanner_scan_mem_blocks(
     // corresponding to the match). Each notebook's page can store up to 1024
     // matches.
     uint32_t max_match_data;
+
+    // If a previous scan was suspended with ERROR_BLOCK_NOT_READY and never
+    // resumed, its matches and its notebook are still around. Discard them so
+    // that they are neither leaked nor reported by this new scan.
+    if (scanner->matches_notebook != NULL)
+    {
+      _yr_scanner_clean_matches(scanner);
+      yr_notebook_destroy(scanner->matches_notebook);
+      scanner->matches_notebook = NULL;
+    }
 
     FAIL_ON_ERROR(
         yr_get_configuration_uint32(YR_CONFIG_MAX_MATCH_DATA, &max_match_data));
